@@ -241,6 +241,22 @@ theorem C16_midrun_copy (s : Spec κ ν) (st st' : St κ ν) (cur : Cur κ ν) (
           exact ⟨rfl, rfl, rfl, fun cur' => by simp [isHit]⟩
     · cases h
 
+/-- HAND EDITS OF THE SUB-GRAPH. `C16_roundtrip`, `C16_roundtrip_unchanged`, `C16_by_value` and
+`C16_history_failures` range over histories that also contain `Ev.tamper o` — a body copy edited and run by
+hand together with its collectors, leaving ANY outputs `o` behind. In particular: right after such an
+edit a run with UNCHANGED good inputs is no cache hit and returns the table of the loop's own inputs -/
+theorem C16_after_edit (s : Spec κ ν) (v : Valid s) (hs : List (Ev κ ν))
+    (hcov : ∀ cur order, (Ev.run cur order ∈ hs ∨ Ev.rrun cur order ∈ hs) → Good s cur →
+      Covers order (combos s cur).length)
+    (o : Outs κ ν) (cur : Cur κ ν) (order : List Nat) (g : Good s cur) (hc : Covers order (combos s cur).length) :
+    isHit s (tamper (evs s (init s) hs) o) cur = false ∧
+    (run s (tamper (evs s (init s) hs) o) cur order).2 = .ok ∧
+    (run s (tamper (evs s (init s) hs) o) cur order).1.outs = refOuts s cur := by
+  have inv : Inv s (tamper (evs s (init s) hs) o) :=
+    ⟨(evs_inv s (init s) hs v hcov (inv_init s)).inputs, fun c _ hcache _ => by simp [tamper] at hcache⟩
+  have := run_good_inv s _ cur order v g hc inv
+  exact ⟨by simp [isHit, tamper], this.1, this.2.1⟩
+
 /-- the run that is ITSELF by-value: after every such history, the loop node shipped to a by-value
 executor with good inputs comes back with the reference table of the CURRENT inputs (never an earlier
 run's lists), and so does every later local run (`C16_roundtrip` with the event appended) -/
@@ -653,6 +669,18 @@ example : nestedBody (exSpec true) exUnlist exEmbed "o" [[1, 2], [3], [4, 5], [7
         · exact ⟨[[1], [2]], rfl, by simp⟩
         · exact ⟨[[3]], rfl, by simp⟩
         · exact ⟨[[4], [5]], rfl, by simp⟩ }).trans (by rfl)
+/-- `C16_after_edit`: run, hand edit leaving a wrong table behind, the same inputs again -/
+example : (run (exSpec true) (tamper (evs (exSpec true) (init (exSpec true))
+      [.run (exCur [[1]] [[3]] [[4]]) [0]]) (.df (some [[("a", [9])]]))) (exCur [[1]] [[3]] [[4]]) [0]).1.outs
+    = refOuts (exSpec true) (exCur [[1]] [[3]] [[4]]) :=
+  (C16_after_edit (exSpec true) (exValid true) _
+    (by
+      intro cur order hh _
+      simp only [List.mem_cons, List.mem_nil_iff, or_false, reduceCtorEq, Ev.run.injEq] at hh
+      obtain ⟨rfl, rfl⟩ := hh
+      intro n hn; have : n < 1 := hn; simp; omega)
+    _ _ [0] (exGood true _ _ _ (by simp) (by simp) (by simp))
+    (by intro n hn; have : n < 1 := hn; simp; omega)).2.2
 /-- `C16_midrun_copy`: a snapshot exists exactly when a run is in flight -/
 example : (midRun (exSpec true) (init (exSpec true)) (exCur [[1], [2]] [[3]] [[4], [5]])).isSome = true := by decide
 example : (midRun (exSpec true) (run (exSpec true) (init (exSpec true)) (exCur [[1]] [[3]] [[4]]) [0]).1
@@ -741,3 +769,4 @@ end PwVerif.C16
 #print axioms PwVerif.C16.C16_history_failures
 #print axioms PwVerif.C16.C16_nested
 #print axioms PwVerif.C16.C16_nested_table
+#print axioms PwVerif.C16.C16_after_edit
